@@ -114,6 +114,22 @@ macro_rules! roundtrip {
     }};
 }
 
+fn fits_u8(case: &Case) -> bool {
+    let Ok(grm) = YaccGrammar::<u32>::new_with_storaget(yacc_kind(case.kind), &case.text) else {
+        return false;
+    };
+    let Ok((sg, _)) = from_yacc(&grm, Minimiser::Pager) else {
+        return false;
+    };
+    let max_syms = grm.iter_pidxs().map(|p| grm.prod(p).len()).max().unwrap_or(0);
+    let lim = 250;
+    usize::from(sg.all_states_len()) <= lim
+        && usize::from(grm.rules_len()) <= lim
+        && usize::from(grm.prods_len()) <= lim
+        && usize::from(grm.tokens_len()) <= lim
+        && max_syms <= lim
+}
+
 fn run_u8(case: &Case, o: &mut Outcome) {
     roundtrip!(u8, case, o)
 }
@@ -183,7 +199,13 @@ impl Prop for C14 {
             if o.failed() {
                 return o;
             }
-            run_u8(&case, &mut o);
+            // the narrowest width only where the documented 'StorageT is not big enough' refusals
+            // cannot apply (sizes taken from the u32 build)
+            if fits_u8(&case) {
+                run_u8(&case, &mut o);
+            } else {
+                o.class("u8-too-narrow");
+            }
         }
         if o.evals == 0 {
             o.evals = 1;
